@@ -14,7 +14,7 @@
 From Coq Require Import List NArith Bool Arith.
 From Coq.Strings Require Import Byte.
 Import ListNotations.
-From OV Require Import Base.Bytes Base.Cases Base.Utf8.
+From OV Require Import Base.Bytes Base.Cases Base.Utf8 Gen.EdiConsts.
 
 (* ---- outcomes ----------------------------------------------------------------------------- *)
 (* Go slice expressions panic when out of range and the loops are fuelled: both are outcomes,
@@ -226,7 +226,8 @@ Definition read_token (c : cfg) (token : bytes) : res segres :=
     | e0 :: _ => if is_empty (re_data e0) then Ok SegErr else Ok (SegOk (re_data e0) raw)
     end)))).
 
-(* The scanner as a pure function (see the header). *)
+(* The scanner as a pure function (see the header).  The two flags are read from the source on
+   every run (Gen/EdiConsts.v): /repo passes EofNotAsDelim | IncludeDelimInReturn. *)
 Fixpoint scan_tokens (fuel : nat) (data seg rel : bytes) : res (list bytes) :=
   match fuel with
   | O => Fuel
@@ -236,9 +237,9 @@ Fixpoint scan_tokens (fuel : nat) (data seg rel : bytes) : res (list bytes) :=
       | _ =>
           bind (index_with_esc data seg rel) (fun oi =>
             match oi with
-            | None => Ok []
+            | None => if edi_scanner_eof_as_delim then Ok [data] else Ok []
             | Some idx =>
-                bind (slice data 0 (idx + length seg)) (fun tok =>
+                bind (slice data 0 (idx + (if edi_scanner_drop_delim then 0 else length seg))) (fun tok =>
                 bind (slice_from data (idx + length seg)) (fun rest =>
                 bind (scan_tokens k rest seg rel) (fun l => Ok (tok :: l))))
             end)
